@@ -26,6 +26,7 @@ def run(model, rep, tier):
     r6_visit_dispatch(ctx, rep)
     r7_edges_only_added(ctx, rep)
     from . import robust
+    r8_iterables_consumed_once(ctx, rep)
     robust.asserts_have_no_effects(ctx, rep, 'C20.R20', 'C20')
     rep.units['cfg'] = ctx.cfg_stats
 
@@ -1267,3 +1268,77 @@ def r7_edges_only_added(ctx, rep, R='C20.R7'):
                           func=fi.qualname, where=ctx.where(fi, st))
     rep.ok(R, 'every write to the neighbour map of DiGraph adds (%d sites)' % n)
     rep.floor(R, n, 1, 'writes to the neighbour map')
+
+
+CONSUMERS = ('set', 'list', 'tuple', 'frozenset', 'sorted', 'map', 'filter', 'iter', 'sum', 'any', 'all', 'enumerate',
+             'zip', 'dict.fromkeys', 'max', 'min', 'len')
+CONSUMING_METHODS = ('update', 'extend', 'union', 'intersection', 'difference', 'issubset', 'issuperset',
+                     'difference_update', 'intersection_update')
+
+
+def r8_iterables_consumed_once(ctx, rep, R='C20.R8'):
+    """'for every directed graph' includes how it is handed over: the docstrings say *nodes* /
+    *neighbors* are iterators.  A one-shot iterator (generator, map object, iter(...)) is empty on
+    the second pass, so a function of digraph.py that walks such a parameter twice -- once to
+    register the nodes, once to build the returned key set -- silently drops nodes or edges."""
+    rep.rule(R, 'nodes and neighbours may be one-shot iterators: in digraph.py no parameter is consumed '
+             '(for loop / comprehension / set() list() map() sorted() ... / .update() .extend()) at two '
+             'sites one of which is reachable from the other, unless it was materialised first '
+             '(p = list(p) / tuple(p) / set(p))')
+    from sa.cfg import build_cfg
+    mod = ctx.model.modules.get('digraph')
+    n = 0
+    for fn in [x for x in ast.walk(mod.tree) if isinstance(x, (ast.FunctionDef, ast.Lambda))]:
+        if isinstance(fn, ast.Lambda):
+            continue
+        ps = [a.arg for a in fn.args.posonlyargs + fn.args.args + fn.args.kwonlyargs if a.arg not in ('self', 'cls')]
+        if not ps:
+            continue
+        own = [x for x in ast.walk(fn) if x is not fn and isinstance(x, ast.FunctionDef)]
+        inner = {id(y) for o in own for y in ast.walk(o)}
+
+        def sites(p):
+            out = []
+            for x in ast.walk(fn):
+                if id(x) in inner:
+                    continue
+                if isinstance(x, (ast.For, ast.comprehension)) and isinstance(x.iter, ast.Name) and x.iter.id == p:
+                    out.append(x)
+                elif isinstance(x, ast.Call):
+                    d = dotted(x.func) or ''
+                    if d in CONSUMERS and any(isinstance(a, ast.Name) and a.id == p for a in x.args):
+                        if d == 'len':
+                            continue
+                        out.append(x)
+                    elif isinstance(x.func, ast.Attribute) and x.func.attr in CONSUMING_METHODS and \
+                            any(isinstance(a, ast.Name) and a.id == p for a in x.args):
+                        out.append(x)
+            return out
+        for p in ps:
+            ss = sites(p)
+            if not ss:
+                continue
+            n += 1
+            # materialised first?
+            mat = any(isinstance(x, ast.Assign) and any(is_name(t, p) for t in x.targets) and
+                      isinstance(x.value, ast.Call) and dotted(x.value.func) in ('list', 'tuple', 'set', 'frozenset', 'sorted')
+                      for x in ast.walk(fn) if id(x) not in inner)
+            if mat or len(ss) < 2:
+                rep.ok(R, '%s: parameter %s is consumed at %d site(s)%s' % (
+                    fn.name, p, len(ss), ' after being materialised' if mat else ''))
+                continue
+            g = build_cfg(fn, ctx.hier, None, mod, name='digraph.' + fn.name)
+            from .common import node_of
+            ids = []
+            for x in ss:
+                nid = node_of(g, x.iter if isinstance(x, (ast.For, ast.comprehension)) else x)
+                ids.append(nid)
+            seq = [(a, b) for i, a in enumerate(ids) for j, b in enumerate(ids)
+                   if i != j and a is not None and b is not None and (a == b or b in g.reach([a]))]
+            rep.check(not seq, R, '%s: the iterable %s is walked once' % (fn.name, p),
+                      '%s walks its parameter %s at %d sites in sequence (%s): a one-shot iterator is empty on '
+                      'the second pass, so nodes / edges handed over as a generator are silently dropped' % (
+                          fn.name, p, len(ss), '; '.join(norm(x)[:40] for x in ss[:2])),
+                      key='twice:%s:%s' % (fn.name, p), func='digraph.' + fn.name,
+                      where='%s:%d' % (mod.path, ss[-1].lineno if hasattr(ss[-1], 'lineno') else fn.lineno))
+    rep.floor(R, n, 1, 'iterable parameters consumed in digraph.py')
